@@ -144,8 +144,43 @@ def _check_reduce(name, rows_vec, cols_vec, flags, forced, sy, S, w, sols, cand,
     return len(keep_r), len(keep_c)
 
 
-def check(case, ev):
+def check_redeclared(case, ev):
+    """History part (round 13): bounds-dependent queries are put to a fresh polyhedron, then its column variables are
+    re-declared - entry by entry in place on the queried object, or on a copy() / a view of it (chosen by the case digest) -
+    and the whole of `check` runs against the box declared NOW. A memo of bounds that survives the assignment or travels
+    with derived arrays makes rows / columns look reducible that no longer are."""
+    import numpy as np
+    from vf.core import digest as _digest
     sy = pc.materialize(case, ev)
+    if sy is None:
+        return
+    puan = build.mods()[0]
+    poly = sy.poly
+    for f in (poly.column_bounds, poly.reducable_rows, poly.reducable_columns_approx, poly.tighten_column_bounds):
+        call(f, what="query before re-declaring")
+    pc.bounded(poly.reducable_rows_and_columns, what="reducable_rows_and_columns before re-declaring")
+    h = int(_digest(case), 16)
+    newb = []
+    for j, (lo, hi) in enumerate(sy.bounds):
+        nb = [(lo - 2, hi), (lo, hi + 2), (lo - 1, hi + 3), (lo, lo), (lo + 1, hi + 1)][(h >> (3 * j)) % 5]
+        newb.append(nb)
+    if newb == list(sy.bounds):
+        newb[0] = (newb[0][0] - 1, newb[0][1] + 1)
+    how = ["inplace", "copy", "view"][(h >> 61) % 3]
+    if how == "inplace":
+        target = poly
+        for j in range(sy.ncols):
+            target.variables[1 + j] = puan.variable(sy.col_ids[j], newb[j])
+    else:
+        target = call(poly.copy, what="copy()") if how == "copy" else poly[:]
+        fresh = [poly.variables[0]] + [puan.variable(i, b) for i, b in zip(sy.col_ids, newb)]
+        target.variables = np.array(fresh, dtype=object) if isinstance(poly.variables, np.ndarray) else fresh
+    sy2 = pc.System(target, sy.col_ids, newb, sy.rows, sy.index_ids, list(sy.classes) + ["redeclared", "redeclared_" + how])
+    check(case, ev, sy=sy2)
+
+
+def check(case, ev, sy=None):
+    sy = sy if sy is not None else pc.materialize(case, ev)
     if sy is None:
         return
     guard = int(case.get("guard", 4096))
@@ -275,6 +310,8 @@ def parts(tier):
         Part("many_columns", strategy=lambda t: pc.many_columns_case(), check=check, quick=(1, 60), thorough=(2, 800)),
         Part("chains", strategy=lambda t: pc.chain_case(guard=g), check=check, quick=(2, 400), thorough=(4, 5000)),
         Part("sparse_large", strategy=lambda t: pc.sparse_block_case(), check=check_sparse, quick=(2, 120), thorough=(4, 1500)),
+        Part("redeclared", strategy=lambda t: pc.system_case(profile="small", guard=g), check=check_redeclared,
+             quick=(1, 300), thorough=(2, 4000)),
         Part("small", strategy=lambda t: pc.system_case(profile="small", guard=g), check=check,
              quick=(3, 1200), thorough=(6, 14000)),
         Part("wide", strategy=lambda t: pc.system_case(profile="wide", guard=g), check=check,
